@@ -7,7 +7,7 @@ CONSTANTS
   ValS = {"unset", "null", "v1"}
   ValT = {"unset", "v1"}
   ValU = {"unset", "v1"}
-  BadU = {"none", "undeclared", "wrongtype"}
+  BadU = {"none", "undeclared", "wrongtype", "wrongnull"}
   GenDepth = 0
 INVARIANT ImplRefinesReq
 INVARIANT ReqWellFormed
